@@ -119,13 +119,17 @@ theorem breaker_guarded_pinned :
        "vault.MsgDepositAndDraw", "vault.MsgCreateStableMint", "vault.MsgDepositStableMint", "vault.MsgWithdrawStableMint",
        "locker.MsgCreateLocker", "locker.MsgDepositAsset", "lend.Lend", "lend.Withdraw", "lend.Deposit", "lend.CloseLend",
        "lend.Borrow", "lend.Repay", "lend.DepositBorrow", "lend.Draw", "lend.CloseBorrow", "lend.BorrowAlternate",
-       "lend.RepayWithdraw", "liquidation.MsgLiquidateVault"] := by decide +kernel
+       "lend.RepayWithdraw", "liquidation.MsgLiquidateVault",
+       "rewards.ExternalRewardsLockers", "rewards.ExternalRewardsVault", "rewards.ExternalRewardsLend",
+       "rewards.ExternalRewardsStableMint"] := by decide +kernel
 
 theorem esm_guarded_pinned :
     (handlers.filter (guarded 2 true)).map qname =
       ["vault.MsgCreate", "vault.MsgDeposit", "vault.MsgDraw", "vault.MsgRepay", "vault.MsgClose", "vault.MsgDepositAndDraw",
        "vault.MsgCreateStableMint", "vault.MsgDepositStableMint", "vault.MsgWithdrawStableMint", "locker.MsgCreateLocker",
-       "locker.MsgDepositAsset", "esm.ExecuteESM", "liquidation.MsgLiquidateVault"] := by decide +kernel
+       "locker.MsgDepositAsset", "esm.ExecuteESM", "liquidation.MsgLiquidateVault",
+       "rewards.ExternalRewardsLockers", "rewards.ExternalRewardsVault", "rewards.ExternalRewardsLend",
+       "rewards.ExternalRewardsStableMint"] := by decide +kernel
 
 theorem cooloff_guarded_pinned : (handlers.filter (guarded 4 false)).map qname = ["vault.MsgWithdraw"] := by decide +kernel
 
